@@ -70,11 +70,12 @@ struct Gen {
     std::vector<long> used;
     for (int i = 0; i < nl; i++) {
       Recipe r; int tries = 0; std::shared_ptr<Link> l;
-      do { r = pool_recipe(c.master, g.below(pool), many_ch); if (p_bs64 > 0 && g.chance(p_bs64)) { r.bs64 = 1; r.cut = 0; r.sig = g.chance(0.75) ? 6 : 1; r.n = std::max<int64_t>(r.n, 3000); } l = get_link(r); } while ((!l->ok || l->ref_err || r.n * r.ch > budget) && ++tries < 20);
+      do { r = pool_recipe(c.master, g.below(pool), many_ch); if (r.trim && (prop == "C20" || prop == "C19" || prop == "C03" || prop == "C13" || prop == "C12")) r.trim += r.trim & 1; /* half rate is toggled in these histories: keep the cut on the even grid */ if (p_bs64 > 0 && g.chance(p_bs64)) { r.bs64 = 1; r.cut = 0; r.trim = 0; r.sig = g.chance(0.75) ? 6 : 1; r.n = std::max<int64_t>(r.n, 3000); } l = get_link(r); } while ((!l->ok || l->ref_err || r.n * r.ch > budget) && ++tries < 20);
       if (!l->ok || l->ref_err) continue;
       budget -= r.n * r.ch; if (budget < 2000) budget = 2000;
       Rec &lr = p.add("link"); r.to(lr);
       int pol = (int)g.below(6); int k = pol == 1 ? (int)g.range(1, 12) : pol == 4 ? (int)g.range(1, 6) : pol == 5 ? (int)g.range(200, 3000) : 4;
+      if (r.trim) { pol = 1; k = std::max(2, r.tk); }
       if (r.bs64) { if (g.chance(0.75)) { pol = 1; k = (int)g.range(2, 8); } else { pol = g.chance(0.5) ? 0 : 3; k = 4; } }   // the rewritten link is only consistent when its first two audio packets share a page
       long serial; do { serial = (long)g.below(1 << 30) - (g.chance(0.1) ? (1 << 29) : 0); } while (std::find(used.begin(), used.end(), serial) != used.end());
       used.push_back(serial);
@@ -152,7 +153,7 @@ struct Gen {
       double u = g.unit();
       if (u < 0.25) { seek_op("", false); if (g.chance(0.7)) read_op(0, 2); }
       else if (u < 0.32) { op("pcm_seek").set("a", g.chance(0.5) ? sr.total : std::max<int64_t>(0, sr.total - (int64_t)g.below(300))); if (g.chance(0.5)) read_op(0, 3); }
-      else if (u < 0.40) { Rec &r = op("crosslap"); r.set("a", pick_pos()); }
+      else if (u < 0.42) { Rec &r = op("crosslap"); r.set("a", pick_pos()); if (g.chance(0.4)) r.set("hrb", (int64_t)g.below(2)); }
       else if (u < 0.45 && sr.nlinks > 1) { int l = (int)g.range(1, sr.nlinks - 1); op("pcm_seek").set("a", std::max<int64_t>(0, sr.start[l] - (int64_t)g.below(200))); read_op(0, 2); seek_op("_lap", g.chance(0.1)); }
       else seek_op("_lap", true, 0.06);
       if (g.chance(0.3)) read_op(0, 2);
